@@ -25,6 +25,11 @@ type loopInfo struct {
 	entryPC  Term
 }
 
+type boxedVal struct {
+	T  Term
+	Ty types.Type
+}
+
 type retPoint struct {
 	block   *ssa.BasicBlock
 	pc      Term
@@ -54,6 +59,7 @@ type Exec struct {
 	qn             int
 
 	entry    *State
+	start    *State // state at the first instruction (entry + ghost-entry code), nil = entry
 	params   map[string]SVal
 	lets     map[string]SVal
 	exitSt   map[*ssa.BasicBlock]*State
@@ -68,6 +74,8 @@ type Exec struct {
 	observe  []Observation
 	closures map[string]*ssa.MakeClosure
 	slInv    map[string]bool
+	boxOf    map[string]boxedVal
+	curCall  *ssa.CallCommon
 	allSorts map[string]Sort // never rolled back
 }
 
@@ -101,20 +109,30 @@ func (x *Exec) globalGet(st *State, g *ssa.Global) Term {
 	return x.vc.named(heapSym(name)+"@0", s)
 }
 
+// localByName: the local variable called name that is in scope at position `at` (the latest declaration before it);
+// without a position, the first declaration.
 func (x *Exec) localByName(fn *ssa.Function, name string) *ssa.Alloc {
-	var found *ssa.Alloc
+	return x.localByNameAt(fn, name, token.NoPos)
+}
+
+func (x *Exec) localByNameAt(fn *ssa.Function, name string, at token.Pos) *ssa.Alloc {
+	var first, best *ssa.Alloc
 	for _, b := range fn.Blocks {
 		for _, in := range b.Instrs {
 			if a, ok := in.(*ssa.Alloc); ok && a.Comment == name {
-				if found != nil && found != a {
-					// ambiguous: prefer the first (outermost) declaration
-					return found
+				if first == nil || (a.Pos().IsValid() && a.Pos() < first.Pos()) {
+					first = a
 				}
-				found = a
+				if at.IsValid() && a.Pos().IsValid() && a.Pos() <= at && (best == nil || a.Pos() > best.Pos()) {
+					best = a
+				}
 			}
 		}
 	}
-	return found
+	if best != nil {
+		return best
+	}
+	return first
 }
 
 // ---- escape analysis for local allocs
@@ -269,7 +287,7 @@ func (x *Exec) resolveAddr(v ssa.Value) Addr {
 			sl := x.val(a.X)
 			idx := x.idxTerm(a.Index)
 			hn, hs := x.sliceHeap(xt.Elem())
-			return Addr{Kind: aSlice, Heap: hn, HSort: hs, Ref: sliceRef(sl), Idx: x.vc.define("ix", T(SBV(64), "(bvadd %s %s)", sliceOff(sl).S, idx.S)), Typ: xt.Elem()}
+			return Addr{Kind: aSlice, Heap: hn, HSort: hs, Ref: sliceRef(sl), Idx: x.vc.define("ix", bvadd64(sliceOff(sl), idx)), Typ: xt.Elem()}
 		case *types.Pointer:
 			arr := xt.Elem().Underlying().(*types.Array)
 			base := x.resolveAddr(a.X)
@@ -399,6 +417,10 @@ func (x *Exec) execInstr(in ssa.Instruction, st *State, pc Term) {
 	case *ssa.Index:
 		v := x.val(i.X)
 		switch i.X.Type().Underlying().(type) {
+		case *types.Basic: // string index
+			idx := x.idxTerm(i.Index)
+			x.safety(st, pc, T(SBool, "(bvult %s (slen %s))", idx.S, v.S), "string-index", i.Pos())
+			x.vals[i] = T(SBV(8), "(sbyte %s %s)", v.S, idx.S)
 		case *types.Array:
 			if c, ok := i.Index.(*ssa.Const); ok {
 				x.vals[i] = x.w.dtSelect(v, int(c.Int64()))
@@ -428,6 +450,7 @@ func (x *Exec) execInstr(in ssa.Instruction, st *State, pc Term) {
 		r := T(SRef, "(%s %s)", name, v.S)
 		x.vc.assume(not(eq(r, tNil)), "boxed value is a non-nil interface")
 		x.vals[i] = r
+		x.boxOf[r.S] = boxedVal{v, i.X.Type()}
 	case *ssa.Phi:
 		// handled at block entry
 	case *ssa.Extract:
@@ -442,6 +465,21 @@ func (x *Exec) execInstr(in ssa.Instruction, st *State, pc Term) {
 		m := x.val(i.Map)
 		mt := i.Map.Type().Underlying().(*types.Map)
 		x.safety(st, pc, not(eq(m, tNil)), "nil-map-update", i.Pos())
+		if x.fc != nil {
+			for _, sa := range x.fc.SiteAsserts {
+				want := x.resolveType(sa.MapType, x.pkg)
+				if canonType(want.Go.Underlying()) != canonType(mt) {
+					continue
+				}
+				env := x.newEnv(st, x.entry)
+				env.at = i.Pos()
+				env.vars["k"] = SVal{T: x.val(i.Key), Ty: goT(mt.Key())}
+				env.vars["v"] = SVal{T: x.operand(i.Value, st), Ty: goT(mt.Elem())}
+				goal := x.evalClause(env, sa.C)
+				x.nsafety++
+				x.vc.oblige(&Obligation{Name: fmt.Sprintf("%s#%d", sa.C.Name, x.nsafety), Kind: "site-assert", Tags: sa.C.Tags, Goal: goal, PC: pc, Src: sa.C.Src, Pos: x.posStr(i.Pos()), Observe: x.observations()})
+			}
+		}
 		x.mapStore(st, mt, m, x.val(i.Key), x.operand(i.Value, st))
 	case *ssa.MakeMap:
 		r := x.allocRef(st, "map")
@@ -1048,6 +1086,9 @@ func (x *Exec) execBlock(b *ssa.BasicBlock) {
 	edges := x.incoming(b)
 	if b == x.fn.Blocks[0] {
 		st = x.entry.clone()
+		if x.start != nil {
+			st = x.start.clone()
+		}
 		pc = tTrue
 	} else {
 		if len(edges) == 0 {
